@@ -387,8 +387,10 @@ impl<'a> Iso<'a> {
                 self.same_import("global", &pa, &pb, x, y)
             }
             (false, false) => {
-                let ia = self.a.globals[(x - na) as usize].init.clone();
-                let ib = self.b.globals[(y - nb) as usize].init.clone();
+                let (ia, ib) = match (self.a.globals.get((x - na) as usize), self.b.globals.get((y - nb) as usize)) {
+                    (Some(p), Some(q)) => (p.init.clone(), q.init.clone()),
+                    _ => return Err(mm(Area::Module, "reference-out-of-range", format!("{}: global {} ↔ {}", ctx, x, y))),
+                };
                 self.cmp_const_expr(&ia, &ib, &format!("global {} init", x), "global.init")
             }
             _ => Err(mm(Area::Module, "global.imported", format!("{}: global {} ↔ {}", ctx, x, y))),
@@ -431,8 +433,10 @@ impl<'a> Iso<'a> {
     }
 
     fn cmp_data(&mut self, x: u32, y: u32) -> R {
-        let da = self.a.datas[x as usize].clone();
-        let db = self.b.datas[y as usize].clone();
+        let (da, db) = match (self.a.datas.get(x as usize), self.b.datas.get(y as usize)) {
+            (Some(p), Some(q)) => (p.clone(), q.clone()),
+            _ => return Err(mm(Area::Module, "reference-out-of-range", format!("data {} ↔ {}", x, y))),
+        };
         match (&da.mode, &db.mode) {
             (DataMode::Passive, DataMode::Passive) => {}
             (
@@ -457,8 +461,10 @@ impl<'a> Iso<'a> {
     }
 
     fn cmp_elem(&mut self, x: u32, y: u32) -> R {
-        let ea = self.a.elems[x as usize].clone();
-        let eb = self.b.elems[y as usize].clone();
+        let (ea, eb) = match (self.a.elems.get(x as usize), self.b.elems.get(y as usize)) {
+            (Some(p), Some(q)) => (p.clone(), q.clone()),
+            _ => return Err(mm(Area::Module, "reference-out-of-range", format!("elem {} ↔ {}", x, y))),
+        };
         match (&ea.mode, &eb.mode) {
             (ElemMode::Passive, ElemMode::Passive) | (ElemMode::Declared, ElemMode::Declared) => {}
             (
